@@ -301,7 +301,8 @@ func (c connectUnaryServerProtocol) extractProtocolResponseHeaders(statusCode in
 		endUnmarshaller = func(_ Codec, buf *bytes.Buffer, end *responseEnd) {
 			var wireErr connectWireError
 			if err := json.Unmarshal(buf.Bytes(), &wireErr); err != nil {
-				end.err = connect.NewError(connect.CodeInternal, err)
+				// Not a Connect error body: infer the code from the HTTP status.
+				end.err = connect.NewError(httpStatusCodeToRPC(statusCode), fmt.Errorf("unexpected HTTP error: %d %s", statusCode, http.StatusText(statusCode)))
 				return
 			}
 			end.err = wireErr.toConnectError()
